@@ -27,9 +27,9 @@ def build_driver(repo):
     # the `rand` feature of the crate (C18) is driven through a deterministic stream generator; if the rand crate cannot be
     # resolved offline the driver is built without it and the r* operations answer UNSUPPORTED
     manifest = ('[package]\nname = "replay-driver"\nversion = "0.0.0"\nedition = "2021"\n[features]\nwithrand = ["dep:rand", "num-bigint/rand"]\n'
-                'withserde = ["dep:serde_json", "num-bigint/serde"]\n[dependencies]\n'
+                'withserde = ["dep:serde_json", "dep:serde", "num-bigint/serde"]\n[dependencies]\n'
                 'num-bigint = { path = "%s" }\nnum-integer = "0.1.46"\nnum-traits = "0.2.18"\nrand = { version = "0.8", default-features = false, optional = true }\n'
-                'serde_json = { version = "1", optional = true }\n'
+                'serde_json = { version = "1", optional = true }\nserde = { version = "1", optional = true }\n'
                 '[profile.dev]\nopt-level = 1\ndebug-assertions = true\noverflow-checks = true\n' % repo)
     with open(os.path.join(crate, "Cargo.toml"), "w") as f:
         f.write(manifest)
@@ -536,7 +536,7 @@ def expected(case):
             except OverflowError:
                 return None
             return "%s %d" % (hx(v), st.pos)
-        if op in ("sser_u", "sser_i", "sde_u", "sde_i", "sround_u", "sround_i"):
+        if op in ("sser_u", "sser_i", "sde_u", "sde_i", "sround_u", "sround_i", "srec_u", "srec_i"):
             # feature `serde` (C17), observed through JSON: BigUint = list of base-2^32 digits, least significant first, no trailing
             # zero; BigInt = [sign as -1/0/1, that list]; reading accepts any u32 list (trailing zeros, odd length)
             def d32(m):
@@ -545,6 +545,15 @@ def expected(case):
                     out.append(m & 0xffffffff)
                     m >>= 32
                 return "[" + ",".join(str(x) for x in out) + "]"
+            if op in ("srec_u", "srec_i"):
+                # the calls a recording serializer sees: S<announced> u:<digit>.. E for a sequence, I:<v> for an i8, T2 .. for a pair
+                n = I(0)
+                m, ds = abs(n), []
+                while m:
+                    ds.append(m & 0xffffffff)
+                    m >>= 32
+                seq = "S%d" % len(ds) + "".join(" u:%d" % x for x in ds) + " E"
+                return seq if op == "srec_u" else "T2 I:%d %s" % ((n > 0) - (n < 0), seq)
             if op == "sser_u":
                 return d32(I(0))
             if op == "sser_i":
@@ -1107,6 +1116,9 @@ def bank(pid, tier, seed):
         vals += [a for a, _ in list(pairs(6))[::5]]
         for v in vals:
             cases.append(("sser_u", hx(v)))
+            cases.append(("srec_u", hx(v)))
+            cases.append(("srec_i", hx(v)))
+            cases.append(("srec_i", hx(-v)))
             cases.append(("sround_u", hx(v)))
             for sg_ in (1, -1):
                 cases.append(("sser_i", hx(sg_ * v)))
